@@ -712,8 +712,8 @@ def gen_hub(rng, faults=True, n_max=10, **kw):
     for _ in range(rng.randint(1, 3)):
         b.new(b.in_params(b.pick(rng.choice([1, 1, 2]))))
     kind = rng.choice(['fail', 'fail', 'fail', 'slow', 'none', 'ok'])
-    roles = rng.sample(['main_in', 'main_decider', 'cand_in', 'cand2_in', 'case_in', 'cand_decider'],
-                       rng.choice([2, 2, 3]))
+    roles = rng.sample(['main_in', 'main_decider', 'cand_in', 'cand2_in', 'case_in', 'cand_decider', 'is_case_main',
+                        'is_case_in_cand'], rng.choice([2, 2, 3]))
     decider = 'main_decider' in roles or 'cand_decider' in roles
     hub_attrs = {}
     if decider:
@@ -761,6 +761,21 @@ def gen_hub(rng, faults=True, n_max=10, **kw):
             d = b.new(b.in_params(b.pick(1, exclude={hub}) or ['n0']), public=False, value={'labels': ['L0', 'L1']})
             cases = [['L0', chain_from([hub], rng.choice([1, 2]))], ['L1', plain_chain(1)]]
             mains.append(b.new(b.in_params(other) + [['s', ['Switch', f'hsw{sw}', d, cases]]]))
+        elif role == 'is_case_main':
+            # the hub itself is a case of a main-scope switch
+            sw += 1
+            d = b.new(b.in_params(b.pick(1, exclude={hub}) or ['n0']), public=False, value={'labels': ['L0', 'L1']})
+            cases = [['L0', hub], ['L1', plain_chain(1)]]
+            mains.append(b.new(b.in_params(other) + [['s', ['Switch', f'hsw{sw}', d, cases]]]))
+        elif role == 'is_case_in_cand':
+            # ... or of a switch inside a one-of candidate
+            sw += 1
+            d = b.new(b.in_params(b.pick(1, exclude={hub}) or ['n0']), public=False, value={'labels': ['L0', 'L1']})
+            cases = [['L0', hub], ['L1', plain_chain(1)]]
+            x = b.new([['s', ['Switch', f'hsw{sw}', d, cases]]] + b.in_params(b.pick(1, exclude={hub})), public=False)
+            c1 = chain_from([x], rng.choice([1, 2])) if rng.random() < 0.5 else x
+            c2 = plain_chain(1)
+            mains.append(b.new(b.in_params(other) + [['o', ['OneOf', [c1, c2] if rng.random() < 0.7 else [c2, c1]]]]))
         elif role == 'cand_decider':
             sw += 1
             cases = [['L0', plain_chain(1)], ['L1', plain_chain(rng.choice([1, 2]))]]
